@@ -586,9 +586,20 @@ def h17(led, rid, ctx):
         if rets and all(peel(p.ret, calls=None).k == "agg" and (peel(p.ret, calls=None).a or "").endswith("Option") for p in rets) \
                 and {peel(p.ret, calls=None).b for p in rets} == {"Some", "None"}:
             clos.append((g, rets))
-    if len(clos) != 1:
-        raise AnchorMissing("the selecting closure of create_tasks (found %d)" % len(clos))
-    g, rets = clos[0]
+    loop_rows = None
+    if not clos:
+        # loop form: `for t in tasks { if keep(t) { out.push(Task{..}) } }` — one row per path that goes
+        # round the loop once: kept iff it pushes
+        loop_rows = []
+        for p in SymExec(f, max_paths=400, max_visits=2).run():
+            if p.diverged:
+                continue
+            if not any(any(fl in ("resource_usage", "processing_time") for fl in c.fields()) for c, v, o in p.conds):
+                continue
+            loop_rows.append((p, any(c.name == "push" for c, a, r in p.calls)))
+    if len(clos) != 1 and not loop_rows:
+        raise AnchorMissing("the selecting closure / loop of create_tasks (found %d closures)" % len(clos))
+    g, rets = clos[0] if clos else (f, [])
     bad = None
     rows = 0
     try:
@@ -608,6 +619,13 @@ def h17(led, rid, ctx):
                             if cond.k != "discr":
                                 ev(cond, leaf)
                         kept = peel(p.ret, calls=None).b == "Some"
+                        break
+                for p, pushed in (loop_rows or []):
+                    if feasible(p.conds, leaf):
+                        for cond, val, others in p.conds:
+                            if cond.k != "discr" and any(fl in ("resource_usage", "processing_time") for fl in cond.fields()):
+                                ev(cond, leaf)
+                        kept = pushed
                         break
                 if kept is None:
                     raise Unknown("no path for usage=%d, duration=%d" % (usage, dur))
